@@ -47,8 +47,8 @@ class BaseHousehold(Sector):
         self.AlphaFin = alpha_fin
         self.IsTaxable = True
         self.GetModel().AddCashFlowIncomeExclusion(self, 'DEM_' + consumption_good_name)
-        self.AddVariable('AlphaIncome', 'Parameter for consumption out of income', '%0.4f' % (self.AlphaIncome,))
-        self.AddVariable('AlphaFin', 'Parameter for consumption out of financial assets', '%0.4f' % (self.AlphaFin,))
+        self.AddVariable('AlphaIncome', 'Parameter for consumption out of income', utils.format_parameter(self.AlphaIncome))
+        self.AddVariable('AlphaFin', 'Parameter for consumption out of financial assets', utils.format_parameter(self.AlphaFin))
         self.AddVariable('DEM_' + consumption_good_name, 'Expenditure on goods consumption',
                          'AlphaIncome * AfterTax + AlphaFin * LAG_F')
         # self.AddVariable('PreTax', 'Pretax income', 'SET IN DERIVED CLASSES')
@@ -61,8 +61,8 @@ class BaseHousehold(Sector):
         is called.
         :return:
         """
-        self.SetEquationRightHandSide('AlphaIncome',  '%0.4f' % (self.AlphaIncome,))
-        self.SetEquationRightHandSide('AlphaFin', '%0.4f' % (self.AlphaFin,))
+        self.SetEquationRightHandSide('AlphaIncome',  utils.format_parameter(self.AlphaIncome))
+        self.SetEquationRightHandSide('AlphaFin', utils.format_parameter(self.AlphaFin))
 
 
 class Household(BaseHousehold):
@@ -289,7 +289,7 @@ class TaxFlow(Sector):
         if long_name == '':
             long_name = 'TaxFlow Object {0} in Country {1}'.format(code, country.Code)
         Sector.__init__(self, country, code, long_name, has_F=False)
-        self.AddVariable('TaxRate', 'Tax rate', '%0.4f' % (taxrate,))
+        self.AddVariable('TaxRate', 'Tax rate', utils.format_parameter(taxrate))
         self.AddVariable('T', 'Taxes Paid', '')
         self.TaxingSector = taxes_paid_to
         self.TaxRate = taxrate
@@ -307,7 +307,7 @@ class TaxFlow(Sector):
 
     def _GenerateEquations(self):
         # Overwrite the tax rate, in case the user sets self.TaxRate directly.
-        self.SetEquationRightHandSide('TaxRate', '%0.4f' % (self.TaxRate,))
+        self.SetEquationRightHandSide('TaxRate', utils.format_parameter(self.TaxRate))
         terms = []
         # Find all sector that are taxable
         taxrate_name = self.GetVariableName('TaxRate')
